@@ -3,19 +3,23 @@
 // thread and therefore scheduled too).  One thread runs at a time; every pthread mutex / rwlock (std::shared_mutex) /
 // condition-variable operation is a schedule point, so the window between two critical sections of one API call - e.g.
 // "value copied under _mutex, _mutex released, cache filled afterwards" - is a place where any other thread can run a whole
-// call.  File I/O of the store (ofstream write + flush per log record, compaction's temp file + rename) is not a
-// schedule point and does not block; fsync is a no-op here.
+// call.  The store's write() system calls (one per flushed log record) are explicit schedule points as well (defined
+// below), so "lock released, record journalled afterwards" is a window too; the rest of the file I/O (compaction's temp
+// file + rename) does not block; fsync is a no-op here.
+// After all threads joined the main thread reads everything back, CLOSES the store, REOPENS it and reads everything back
+// again: the linearization of the concurrent phase fixes the reference map, the reopened store has to agree with it.
 //
 //   drv_s_kvmap run <cases.txt> <out.ndjson> <scratch dir> [parallel]
 //       case line:  cache=<n> | <prog> | random <seed> | randomt <seed> | replay|prefix <threads...>
 //       prog:  init=set:1:1,setx:2:1 ; a=get:1,ex:1,ttl:1 ; b=set:1:2,rm:2
-//         init ops run on the main thread before the others start; afterwards main joins them and reads everything back
+//         init ops run on the main thread before the others start; afterwards main joins them, reads everything back,
+//         closes + reopens the store and reads everything back again
 //         ops: set:k:v  setx:k:v (set with a TTL far in the future)  rm:k  expf:k (expireAt far future)  expp:k (expireAt in
 //              the past: the key is dead at once, the wheel fires at its next tick and the worker evicts)  per:k  clear
 //              compact | get:k  ex:k  ttl:k  getb  keys  size
 //   drv_s_kvmap dfs <cache> <prog> <preemption bound> <max executions> <out.ndjson> <scratch dir> [parallel]
 //
-// Events: Begin{nk} Call{t,op,k,v} Ret{t,op,rv,rvs} End{outcome,stuck,steps}.   Values are ids (a value that is not
+// Events: Begin{nk} Call{t,op,k,v} Ret{t,op,rv,rvs} Reopen End{outcome,stuck,steps}.   Values are ids (a value that is not
 // byte-identical to a stored one is -1); ttl is logged as a class: -1 none, 1 has a remaining TTL.  The wheel is tiny
 // (10 ms tick, 20 ms range) so that with `randomt` every armed timer keeps firing (ReArm / Evict / Stale); virtual time
 // drifts by at most a few seconds per execution while the expiries used are -1000 s / +1e6 s.
@@ -25,6 +29,7 @@
 #include "vf/trace.hpp"
 
 #include <algorithm>
+#include <cctype>
 #include <map>
 #include <memory>
 #include <random>
@@ -34,8 +39,17 @@
 using iora::storage::KVStore;
 using iora::storage::KVStoreConfig;
 
+#include <dlfcn.h>
 extern "C" int fsync(int) { return 0; }
 extern "C" int fdatasync(int) { return 0; }
+// every write() of a registered thread to a file is a schedule point of its own (the log record of an operation reaches
+// the file in one write at its flush)
+extern "C" ssize_t write(int fd, const void *b, size_t n)
+{
+  static auto real = (ssize_t(*)(int, const void *, size_t))dlsym(RTLD_NEXT, "write");
+  if (fd > 2 && vf::self() >= 0) vf::point("write");
+  return real(fd, b, n);
+}
 
 static const int NKEYS = 3;
 static std::string keyName(int k) { return "k" + std::to_string(k); }
@@ -195,6 +209,7 @@ static std::string runOne(unsigned cache, const std::vector<ThreadProg> &prog, c
                     vf::point("call");
                     doOp(*sh, "main", op);
                   }
+              vf::point("spawn"); // the DFS branches only between this point and "joined"
               std::vector<std::thread> th;
               for (auto &tp : prog)
               {
@@ -211,23 +226,35 @@ static std::string runOne(unsigned cache, const std::vector<ThreadProg> &prog, c
                     });
               }
               for (auto &t : th) t.join();
-              // sequential read-back: every key through every single-key read path, then the scans
-              for (int k = 1; k <= NKEYS; ++k)
-                for (const char *rop : {"get", "ex", "ttl", "get"})
+              vf::point("joined"); // the DFS does not branch beyond this point
+              auto readBack = [&]()
+              {
+                // sequential read-back: every key through every single-key read path, then the scans
+                for (int k = 1; k <= NKEYS; ++k)
+                  for (const char *rop : {"get", "ex", "ttl", "get"})
+                  {
+                    vf::point("call");
+                    OpSpec os;
+                    os.op = rop;
+                    os.k = k;
+                    doOp(*sh, "main", os);
+                  }
+                for (const char *rop : {"getb", "keys", "size"})
                 {
                   vf::point("call");
                   OpSpec os;
                   os.op = rop;
-                  os.k = k;
                   doOp(*sh, "main", os);
                 }
-              for (const char *rop : {"getb", "keys", "size"})
-              {
-                vf::point("call");
-                OpSpec os;
-                os.op = rop;
-                doOp(*sh, "main", os);
-              }
+              };
+              readBack();
+              vf::point("destroy");
+              delete store; // orderly shutdown: wheel drained, eviction worker joined, log flushed and closed
+              sh->s = nullptr;
+              sh->tr.add(vf::Ev("Reopen"));
+              store = new KVStore(dir + "/db", c);
+              sh->s = store;
+              readBack();
               vf::point("destroy");
               delete store;
             });
@@ -240,6 +267,17 @@ static std::string runOne(unsigned cache, const std::vector<ThreadProg> &prog, c
   std::string text = sh->tr.text();
   if (emitSched)
   {
+    long joinedAt = -1, spawnAt = -1;
+    for (size_t i = 0; i < r.steps.size(); ++i)
+    {
+      if (r.steps[i].op == "point:spawn" && spawnAt < 0) spawnAt = (long)i;
+      if (r.steps[i].op == "point:joined")
+      {
+        joinedAt = (long)i;
+        break;
+      }
+    }
+    text += "#J " + std::to_string(joinedAt) + " " + std::to_string(spawnAt) + "\n";
     std::string s = "#S";
     for (auto &st : r.steps)
     {
@@ -354,8 +392,14 @@ static int cmdDfs(int argc, char **argv)
     unlink(tmp.c_str());
     std::vector<Node> nextWave;
     int idx = 0;
+    long joinedAt = -1, spawnAt = -1;
     for (auto &ln : lines)
     {
+      if (ln.rfind("#J", 0) == 0)
+      {
+        sscanf(ln.c_str() + 2, "%ld %ld", &joinedAt, &spawnAt);
+        continue;
+      }
       if (ln.rfind("#S", 0) == 0)
       {
         auto w = vf::words(ln.substr(2));
@@ -384,13 +428,20 @@ static int cmdDfs(int argc, char **argv)
           if (k > 0)
             for (int x : en[k])
               if (x == chosenId[k - 1]) prevEnabled = true;
-          if (k >= nd.prefix.size())
+          if (joinedAt >= 0 && (long)k > joinedAt) break; // sequential tail: read-back, close, reopen, read-back
+          if (k >= nd.prefix.size() && (long)k >= spawnAt)
           {
             for (int alt : en[k])
             {
               if (alt == chosenId[k]) continue;
               if (!nameOf.count(alt)) continue;
-              int cost = pre + ((k > 0 && prevEnabled && alt != chosenId[k - 1]) ? 1 : 0);
+              // a deviation costs one unit when it preempts a thread that could go on - and also when it runs one of the
+              // store's own threads (w1, w2, ...: wheel tick thread, eviction worker) ahead of the default choice: the tick
+              // thread's timed wait can time out again and again, so "free" switches to it would never be exhausted
+              const std::string &an = nameOf[alt];
+              bool background = an.size() >= 2 && an[0] == 'w' && isdigit((unsigned char)an[1]);
+              bool preempts = k > 0 && prevEnabled && alt != chosenId[k - 1];
+              int cost = pre + ((preempts || background) ? 1 : 0);
               if (cost > bound) continue;
               std::vector<std::string> p(chosen.begin(), chosen.begin() + k);
               p.push_back(nameOf[alt]);
@@ -398,6 +449,7 @@ static int cmdDfs(int argc, char **argv)
             }
           }
           if (k > 0 && prevEnabled && chosenId[k] != chosenId[k - 1]) ++pre;
+          if (k + 1 == nd.prefix.size() && nd.pre > pre) pre = nd.pre; // the planned prefix cost what it was charged
         }
         continue;
       }
